@@ -63,6 +63,7 @@ type PriorSpec struct { // state left in the out dir before the run (for resume 
 	ForeignID    string `json:"foreign_id"`    // ... another file id
 	FlipBit      int    `json:"flip_bit"`      // flip this bit of the sidecar file (0 = none, n = bit n-1)
 	TruncSidecar int    `json:"trunc_sidecar"` // truncate the sidecar file to n-1 bytes (0 = none)
+	Elsewhere    bool   `json:"elsewhere"`     // the interrupted run wrote into <out>/<root> (its out dir was that directory): sidecar and partial data file live there, while <out>/<file> itself is an unrelated file of the same length
 	TmpChunks    []int  `json:"tmp_chunks"`    // leave a complete temp sidecar (<path>.tmp, as a kill between temp write and rename does) marking these chunks
 }
 
@@ -552,6 +553,7 @@ func runCase(c Case) (res Result) {
 		chunk = 64
 	}
 	// prior partial state
+	var elsewhereDirs []string
 	for _, pr := range c.Prior {
 		var item *manifest.FileItem
 		for i := range m.Items {
@@ -570,10 +572,23 @@ func runCase(c Case) (res Result) {
 			}
 		}
 		data := content(spec.S, spec.N)
-		dst := filepath.Join(outTree, filepath.FromSlash(pr.File))
+		priorBase := outTree
+		if pr.Elsewhere {
+			priorBase = filepath.Join(outBase, m.Root)
+			// what stands at the place this run writes to: some other file of the same length
+			other := filepath.Join(outTree, filepath.FromSlash(pr.File))
+			os.MkdirAll(filepath.Dir(other), 0o755)
+			ob := make([]byte, spec.N)
+			for i := range ob {
+				ob[i] = data[i] ^ 0x5A
+			}
+			os.WriteFile(other, ob, 0o644)
+			elsewhereDirs = append(elsewhereDirs, priorBase)
+		}
+		dst := filepath.Join(priorBase, filepath.FromSlash(pr.File))
 		os.MkdirAll(filepath.Dir(dst), 0o755)
 		buf := make([]byte, spec.N)
-		scPath := transfer.SidecarPath(outTree, "", item.ID)
+		scPath := transfer.SidecarPath(priorBase, "", item.ID)
 		scID, scSize, scChunk := item.ID, item.Size, chunk
 		if pr.ForeignID != "" {
 			scID = pr.ForeignID
@@ -797,6 +812,9 @@ done:
 		res.Unsound, res.Observations = obs.finish()
 	}
 	a := snapshot(cmpSrc, false)
+	for _, d := range elsewhereDirs {
+		os.RemoveAll(d) // the other run's directory is not part of this run's result
+	}
 	b := snapshot(outTree, true)
 	res.Diff = diffTrees(a, b)
 	res.Equal = len(res.Diff) == 0
